@@ -5,6 +5,8 @@
 use divan::__verif as v;
 use hxlib::toks;
 
+mod e2e;
+
 fn opt(s: &str) -> Option<usize> {
     if s == "-" {
         None
@@ -39,10 +41,15 @@ fn dispatch(mode: &str, line: &str) -> String {
             t[2].parse().expect("u128"),
             t[3] == "1",
         )),
+        // <api> <flag> <env>: a real run of this binary as a child process (see e2e.rs)
+        "e2e" => e2e::run_case(line),
         _ => panic!("unknown mode {mode}"),
     }
 }
 
 fn main() {
+    if std::env::var_os("HX_FMT_CHILD").is_some() {
+        return e2e::child();
+    }
     hxlib::run(dispatch);
 }
